@@ -25,15 +25,23 @@ CLAIM = dict(
     text="Search on the implementation: standard-library and example statements, their token- and character-level "
          "mutations, numeric-literal substitution by extreme values, grammar-generated programs with extreme literals "
          "and exponents, extreme shapes (operator runs, nesting to depth 500, 70 000-element lists, 65 536 factorial "
-         "operators), random UTF-8 — in fresh and in accumulating sessions, with the diagnostic of every error rendered, "
+         "operators), random UTF-8, calls of every function of the prelude session with arguments from the edges of "
+         "each declared parameter type, dimensionful bases raised to compile-time exponent expressions over small "
+         "integers — in fresh and in accumulating sessions, with the diagnostic of every error rendered, "
          "under catch_unwind and a wall-clock watchdog. Proved (Props/C08.lean) are the exact boundaries of the arithmetic "
          "cores behind the named crashes: factorial_terminates / factorial_panics_iff / factorial_order_zero_diverges / "
          "order_cast_zero_iff (the operator count is cast to u16: exactly the multiples of 65536 panic in checked builds "
          "and loop forever otherwise), mulI128_safe / mulI128_overflow_witness (exponent products), and from C18 that "
-         "no list operation can panic. The factorial model is tied to the interpreter by a correspondence stream.",
+         "no list operation can panic. The factorial model is tied to the interpreter by a correspondence stream. (For "
+         "the typed program fragment of C01, `program_no_incompatible` additionally excludes the VM's `pop_quantity` / "
+         "`pop_bool` / struct and list shape panics — the outcome `stuck` of that model — for every well-typed program.)",
     design_ref="DESIGN.md section 5 C08",
-    note="Exploration level: no executable model short of the whole interpreter decides this property. Four panic call "
-         "sites reachable from inputs are recorded as known findings (rational exponent overflow in num-rational, "
-         "factorial order cast, VM constant table assert, last-result type confusion).",
+    note="Exploration level: no executable model short of the whole interpreter decides this property. The search found "
+         "some twenty genuine crash or hang sites on the pinned tree; most were repaired in numbat (`fix:` commits: "
+         "full_simplify, mod, atan2, diagnostic backtrace, substitution unwrap, interpolation traversal, function "
+         "self-reference, non-quantity units, NaN comparison, base, gcd, range, linspace, split), the rest are recorded "
+         "as known findings by panic site / message (rational exponent overflow in num-rational, factorial order cast, "
+         "VM constant table assert, last-result type confusion, polymorphic NaN/inf in FFI conversions, strfmt and "
+         "pretty_dtoa, format-spec width).",
     technique="randomised and shape-directed crash search on the implementation (panic capture by call site, watchdog) + Lean 4 theorems for the arithmetic cores of the known crashes",
 )
